@@ -41,7 +41,8 @@ pub fn run_scenario(sc: &J, out: &mut Vec<J>) {
     let c_size = ju(csdspec, "c_size", 1000) as u32;
     let mult = ju(csdspec, "mult", 7) as u32;
     let bl = ju(csdspec, "bl", 9) as u32;
-    let csd = mkcsd(ver, c_size, mult, bl);
+    let erase = ju(csdspec, "erase", 1) as u32 & 1;
+    let csd = mkcsd(ver, c_size, mult, bl, erase);
     // capacity per the SD specification for the register's own structure version
     let cap_bytes: u64 = if ver == 0 { (c_size as u64 + 1) << (mult + 2 + bl) } else { (c_size as u64 + 1) * 512 * 1024 };
     let (cap_real, cap_rem) = (cap_bytes / 512, cap_bytes % 512);
@@ -74,7 +75,7 @@ pub fn run_scenario(sc: &J, out: &mut Vec<J>) {
     let delays = Rc::new(RefCell::new(0u64));
     let opts = AcquireOpts { use_crc: crc, acquire_retries: ju(sc, "retries", 50) as u32 };
     let sd = SdCard::new_with_options(SimSpi(card.clone()), SimDelay(delays.clone()), opts);
-    out.push(json!({"ev": "Reset", "id": sc["id"], "kind": sc["kind"], "crc": crc, "csd": {"ver": ver, "c_size": c_size, "mult": mult, "bl": bl}, "weird": weird,
+    out.push(json!({"ev": "Reset", "id": sc["id"], "kind": sc["kind"], "crc": crc, "csd": {"ver": ver, "c_size": c_size, "mult": mult, "bl": bl, "erase": erase}, "weird": weird,
         "cap": [cap_real >> 16, cap_real & 0xFFFF], "caprem": cap_rem, "nblocks": nblocks, "acmd41": card.borrow().acmd41_need,
         "budget": [card.borrow().budget >> 16, card.borrow().budget & 0xFFFF]}));
     let seed = ju(sc, "seed", 1);
@@ -159,6 +160,10 @@ pub fn run_scenario(sc: &J, out: &mut Vec<J>) {
                 },
                 "num_bytes" => match sd.num_bytes() {
                     Ok(c) => json!({"k": "ok", "e": "", "pay": [], "val": [(c / 512) >> 16, (c / 512) & 0xFFFF], "rem": c % 512}),
+                    Err(e) => json!({"k": "err", "e": err_name(&e), "pay": [], "val": [0, 0]}),
+                },
+                "erase_en" => match sd.erase_single_block_enabled() {
+                    Ok(b) => json!({"k": "ok", "e": "", "pay": [], "val": [0, b as u32]}),
                     Err(e) => json!({"k": "err", "e": err_name(&e), "pay": [], "val": [0, 0]}),
                 },
                 "card_type" => match sd.get_card_type() {
